@@ -419,6 +419,10 @@ func (g *Gen) convert(x *ssa.Convert) {
 			n := app("slen", g.val(x.X))
 			g.assume(sEq(app("objsize", o), n))
 			g.defineVal(x, app("mksl", g.mkptr(o, g.M.IxLit(0)), n, n))
+			if !g.M.BV {
+				// the bytes of the new slice are those of the string
+				g.assumePC(sEq(app("seqid", g.heapTerm(g.cur, "Int"), g.valName(x)), app("seqOfStr", g.val(x.X))))
+			}
 			return
 		}
 	}
@@ -510,6 +514,9 @@ func (g *Gen) ret(x *ssa.Return) {
 		g.oblige("panic", "must-panic", x.Pos(), sNot(s))
 	}
 	for _, c := range g.spec.Ensures {
+		if c.Slow && Tier == "quick" {
+			continue
+		}
 		s, err := env.EvalBool(c.Expr)
 		if err != nil {
 			specFail("%s: ensures %s: %v", c.Pos, c.Src, err)
